@@ -186,12 +186,14 @@ type Env struct {
 	vars      map[string]Val
 	lookupCur func(name string) (Val, bool)
 	lookupOld func(name string) (Val, bool)
+	lookupPtr func(name string) (Ptr, bool) // address of a local variable (for field access on struct locals)
+	lookupType func(name string) types.Type // static type of a parameter (for field access on struct values)
 	inOld     bool
 	parent    *Env
 }
 
 func (e *Env) bind(name string, v Val) *Env {
-	return &Env{vars: map[string]Val{name: v}, lookupCur: e.lookupCur, lookupOld: e.lookupOld, inOld: e.inOld, parent: e}
+	return &Env{vars: map[string]Val{name: v}, lookupCur: e.lookupCur, lookupOld: e.lookupOld, lookupPtr: e.lookupPtr, lookupType: e.lookupType, inOld: e.inOld, parent: e}
 }
 
 func (e *Env) get(name string) (Val, bool) {
@@ -502,6 +504,20 @@ func (ev *Evaluator) Eval(e Expr, env *Env) Val {
 		if p, ok := base.(Ptr); ok {
 			base = ev.deref(p, env.inOld)
 			return ev.fieldOf(base, p.Cell.Typ, p.Path, x.Name)
+		}
+		if id, ok := x.X.(*EIdent); ok && env.lookupPtr != nil && !env.inOld {
+			if _, shadowed := env.get(id.Name); !shadowed {
+				if p, ok := env.lookupPtr(id.Name); ok {
+					return ev.fieldOf(ev.deref(p, false), p.Cell.Typ, p.Path, x.Name)
+				}
+			}
+		}
+		if id, ok := x.X.(*EIdent); ok && env.lookupType != nil {
+			if t := env.lookupType(id.Name); t != nil {
+				if _, isAgg := base.(Agg); isAgg {
+					return ev.fieldOf(base, t, nil, x.Name)
+				}
+			}
 		}
 		ev.fail("field access needs typed value; use helper functions (got %T.%s)", base, x.Name)
 	case *ELet:
